@@ -447,7 +447,8 @@ pub mod implementations {
         let var = ctx.pop();
 
         let ret = if let Some(primitive) = var {
-            ReturnValue::Value(primitive)
+            // a function returns a value, not a pointer to the element / field it read it from
+            ReturnValue::Value(primitive.move_out_of_heap_primitive()?)
         } else {
             ReturnValue::NoValue
         };
